@@ -230,7 +230,7 @@ func finishCheck(e *Engine, spec *CheckSpec, tier string, ts TierSpec, jobs []*J
 			os.Remove(f)
 		}
 	}
-	var reps []*pendingReplay
+	var reps, unreplayed []*pendingReplay
 	nrep := 0
 	mkReplay := func(j *Job, spkg, label, kind string, draws []DrawValue, v *Violation) *pendingReplay {
 		nrep++
@@ -242,6 +242,17 @@ func finishCheck(e *Engine, spec *CheckSpec, tier string, ts TierSpec, jobs []*J
 	}
 	for i, j := range jobs {
 		spkg := ts.Jobs[i].Pkg
+		if ts.Jobs[i].NoReplay {
+			// schedule- and clock-dependent harnesses cannot be replayed with the native scheduler: violations are
+			// reported from the symbolic trace, reach witnesses are not validated
+			for vi := range j.violations {
+				v := &j.violations[vi]
+				pr := mkReplay(j, spkg, v.Label, v.Kind, v.Draws, v)
+				pr.res = &replayResult{Failed: []string{v.Label}, Panic: "not replayed"}
+				unreplayed = append(unreplayed, pr)
+			}
+			continue
+		}
 		for vi := range j.violations {
 			v := &j.violations[vi]
 			reps = append(reps, mkReplay(j, spkg, v.Label, v.Kind, v.Draws, v))
@@ -259,6 +270,7 @@ func finishCheck(e *Engine, spec *CheckSpec, tier string, ts TierSpec, jobs []*J
 	if !noReplay {
 		runReplays(e, repo, hdir, reps)
 	}
+	reps = append(reps, unreplayed...)
 	// ---- verdicts ----
 	var violLines, knownLines, inconc []string
 	validated := 0
@@ -291,7 +303,9 @@ func finishCheck(e *Engine, spec *CheckSpec, tier string, ts TierSpec, jobs []*J
 				ok = contains(rr.Failed, r.label)
 			}
 			if ok {
-				validated++
+				if rr.Panic != "not replayed" {
+					validated++
+				}
 				confirmedViol++
 				violLines = append(violLines, fmt.Sprintf("VIOLATION property=%s replay=%s label=%s harness=%s", prop, r.file, r.label, r.viol.Harness))
 			} else {
